@@ -258,6 +258,37 @@ def params_family(rep, rnd):
     rep.exhaustive["8x8x2x2 parameter combinations"] = True
 
 
+def large_family(rnd, tier):
+    """messages that inflate to several MiB (a few KiB on the wire), whole and in fragments, followed by a small message through
+    the same context: delivered complete, and the context stays in step (no model: only the oracle judges these)"""
+    out = []
+    sizes = [5 * 1024 * 1024 + 17] if tier == "quick" else [4 * 1024 * 1024 - 1, 4 * 1024 * 1024, 4 * 1024 * 1024 + 1, 9 * 1024 * 1024 + 3]
+    for size in sizes:
+        for frag in (False, True):
+            swb = rnd.choice([9, 15])
+            peer = ref7692.Peer(swb, 15, False, False)
+            hs = ref6455.handshake_response(scen.ACCEPT, extra=b"Sec-WebSocket-Extensions: permessage-deflate; server_max_window_bits=%d\r\n" % swb)
+            unit = scen.rand_bytes(rnd, 97)
+            big = (unit * (size // len(unit) + 1))[:size]
+            z = peer.compress(big)
+            after = b"after the large one " * 3
+            za = peer.compress(after)
+            if frag:
+                k = len(z) // 3
+                stream = E(2, z[:k], rsv=4, fin=0) + E(0, z[k:2 * k], fin=0) + E(0, z[2 * k:])
+            else:
+                stream = E(2, z, rsv=4)
+            stream += E(1, za, rsv=4)
+            sc = dict(cfg=simnet.default_cfg(auto_pong=False), steps=scen.steps_from_chunks([hs + stream]) + [("eof", 0)], app={}, keys=[], key16=scen.KEY16,
+                      zlog=False, ws_kwargs=dict(compress=True))
+            sc["_expect"] = [[7, big], [6, after]]
+            sc["_sends"] = []
+            sc["_params"] = (swb, 15, False, False)
+            sc["_bfinal"] = 0
+            out.append(sc)
+    return out
+
+
 def _regen():
     import importlib.util
     import os
@@ -314,6 +345,8 @@ def run(rep, info, model, tier, seed):
     cf = corrupt_family(rnd, 150 if tier == "quick" else 3000)
     fam.run_family(rep, model, "C06:corrupted", cf, oracle, project=lambda t: [it for it in t if it[0] != 10],
                    rule="bit flips, truncation and garbage in a compressed message: either the exact content or a ProtocolError")
+    fam.run_family(rep, None, "C06:large-messages", large_family(rnd, tier), oracle, project=lambda t: [],
+                   rule="compressed messages that inflate to 5 MiB (thorough: around 4 MiB and 9 MiB), unfragmented and in three fragments, then a small compressed message through the same context: both delivered with their original content (judged by the oracle; the model is not asked)")
     params_family(rep, rnd)
     negotiation_table(rep)
     if not proof_ok and not rep.violations:
@@ -331,4 +364,4 @@ def replay(body):
     if (body["scenario"] or {}).get("kind"):
         print("in-process family: re-run check.py C06 quick")
         return 2
-    return fam.replay_generic(body, {"C06:histories-x-256-configurations": oracle, "C06:no-negotiation": no_neg_oracle, "C06:corrupted": oracle})
+    return fam.replay_generic(body, {"C06:histories-x-256-configurations": oracle, "C06:no-negotiation": no_neg_oracle, "C06:corrupted": oracle, "C06:large-messages": oracle})
